@@ -636,6 +636,23 @@ example :
     (compose (rename g r) (rename g p)).toOption.map (·.centerAtoms) = some [7] := by
   decide
 
+/-- **remap_preserves_cgr.** Reading with `remap=True` does not change the condensed graph except for the renaming: let
+    `o₀` be the atom numbers assigned without `remap` and `g` the gap-closing map of `mapping_remap_consistent`; for all
+    well-formed sides `r`, `p` whose atoms carry numbers that are in use in `o₀`, composing the renumbered sides gives
+    the renumbered condensed graph (same centre up to `g`, same errors). Holds for all parsed inputs — any gaps,
+    unbalanced roles, reagents (the class of round-5 change 1). -/
+theorem remap_preserves_cgr (R P A : List (List Nat)) (o : MapOut) (h : postprocessRxn true true R P A = .ok o) :
+    ∃ o₀, postprocessRxn false true R P A = .ok o₀ ∧ ∃ g : Nat → Nat,
+      o.reactants.flatten = o₀.reactants.flatten.map g ∧ o.products.flatten = o₀.products.flatten.map g ∧
+      o.reagents.flatten = o₀.reagents.flatten.map g ∧
+      ∀ r p : Mol, r.WF = true → p.WF = true →
+        (∀ n ∈ r.ids ++ p.ids, n ∈ o₀.reactants.flatten ++ o₀.products.flatten ++ o₀.reagents.flatten) →
+        compose (rename g r) (rename g p) = mapExcept (renameCGR g) (compose r p) := by
+  obtain ⟨_, o₀, h0, g, hinj, e1, e2, e3⟩ := mapping_remap_consistent R P A o h
+  refine ⟨o₀, h0, g, e1, e2, e3, ?_⟩
+  intro r p wr wp hsub
+  exact compose_equivariant_on g r p wr wp (fun x hx y hy => hinj x (hsub x hx) y (hsub y hy))
+
 /-- **union_equivariant.** For every pair of well-formed graphs — disjoint, partly overlapping or identical numberings —
     and every injective renumbering `f` of both: `f a | f b` is `a | b` renumbered by the induced map `inducedRen f a b`
     (`f` on the numbers of `a`; with a collision the block `max(a)+1 …` goes to the block `max(f a)+1 …`), which agrees
